@@ -240,7 +240,7 @@ def _run_rest(ctx):
             p["stmts"] = [tuple(s) for s in p["stmts"]]
     else:
         for i in range(nprog):
-            progs.append(spine.gen_program(rng, disjunction=True))
+            progs.append(spine.gen_program(rng, disjunction=True, numeric=True))
     # pinned regression corpus: programs inside the structural region of known finding F1 that the tree answered
     # correctly when the corpus was built (tools/gen_c01_corpus.py); a failure here is never matched by the finding
     import json
